@@ -116,7 +116,10 @@ class C14(Check):
                 await t.to_operational(MachineState(case["target"]))
                 prior["on"] = False
             try:
-                ret = await t.to_operational(MachineState(case["target"]))
+                if case["target"] == 8 and len(case["replies"]) % 2 == 0:
+                    ret = await t.to_operational()          # the documented default: all the way to OPERATIONAL
+                else:
+                    ret = await t.to_operational(MachineState(case["target"]))
             except EtherCatError:
                 return 2
             except ValueError:
@@ -217,7 +220,7 @@ class C14(Check):
     def rule(self):
         return ("75% structured terminal behaviours (start state, optional initial error, 0-3 polls per transition, error at a random poll, truncated streams), "
                 "25% unstructured status-word streams incl. invalid states and regressions; thorough adds all streams of length <= 5 over 6 words; "
-                "every third case on a Terminal object that a conformant terminal had already followed to the same target (the terminal has changed state on its own since); "
+                "half of the walks to OPERATIONAL through the default argument; every third case on a Terminal object that a conformant terminal had already followed to the same target (the terminal has changed state on its own since); "
                 "non-trivial = at least two state requests written")
 
     def distribution(self, cases, observed):
